@@ -56,6 +56,28 @@ def rename(src, suffix="_rn"):
     return "".join(parts)
 
 
+def canonical_parameters(src):
+    """Every function's parameters renamed, consistently inside that function, to p0, p1, ... - so that all functions
+    share their parameter names (a consistent renaming that creates every possible name clash between callers and callees)."""
+    out = []
+    for stmt in statements(src):
+        m = re.match(r"^(\s*(?:#[^\n]*\n\s*)*let\s+@?[A-Za-z_][A-Za-z0-9_$-]*)((?:\s+[A-Za-z_][A-Za-z0-9_$-]*)+)(\s*=.*)$", stmt, re.S)
+        if not m:
+            out.append(stmt)
+            continue
+        params = m.group(2).split()
+        body = m.group(3)
+        parts = re.split(r"(`[^`]*`|\"[^\"]*\")", body)
+        # two steps, so that swapping names (x y -> p0 p1 where y is already called p0) cannot capture
+        for i, nm in enumerate(params):
+            for j in range(0, len(parts), 2):
+                parts[j] = re.sub(r"(?<![A-Za-z0-9_@'$/.-])%s(?![A-Za-z0-9_$-])" % re.escape(nm), "\x00%d\x00" % i, parts[j])
+        body = "".join(parts)
+        body = re.sub(r"\x00(\d+)\x00", lambda mm: "p%s" % mm.group(1), body)
+        out.append(m.group(1) + "".join(" p%d" % i for i in range(len(params))) + body)
+    return join(out)
+
+
 def permute(src, how):
     st = statements(src)
     uses = [s for s in st if s.lstrip().startswith("use ")]
